@@ -16,6 +16,9 @@ import (
 	"math/rand"
 	"sort"
 
+	"github.com/dolthub/go-mysql-server/sql"
+	gmstypes "github.com/dolthub/go-mysql-server/sql/types"
+
 	"github.com/dolthub/dolt/go/store/hash"
 	"github.com/dolthub/dolt/go/store/prolly"
 	"github.com/dolthub/dolt/go/store/prolly/tree"
@@ -193,7 +196,11 @@ func routeObs(name string, ns tree.NodeStore, root *tree.Node) (Route, [][]*tree
 }
 
 // decisions of the real splitter for every run of every level of the tree
-func decisions(lv [][]*tree.Node) (n []int, dec [][]int) {
+func decisions(lv [][]*tree.Node) (n []int, dec [][]int) { return decisionsWith(lv, nil) }
+
+// leafVal, when non-nil, is the value the chunker was given for every leaf entry (commit closures: the
+// 1-byte placeholder that is not serialized); otherwise the stored value is used
+func decisionsWith(lv [][]*tree.Node, leafVal []byte) (n []int, dec [][]int) {
 	var ids []int // ids of the items of the current level = ordinal of the last leaf entry below
 	for l, nodes := range lv {
 		var newIds []int
@@ -205,6 +212,9 @@ func decisions(lv [][]*tree.Node) (n []int, dec [][]int) {
 			vals := make([]tree.Item, nd.Count())
 			for i := 0; i < nd.Count(); i++ {
 				keys[i], vals[i] = nd.GetKey(i), nd.GetValue(i)
+				if l == 0 && leafVal != nil {
+					vals[i] = leafVal
+				}
 			}
 			ds := tree.VerifSplitDecisions(l, keys, vals)
 			for i := range ds {
@@ -642,6 +652,214 @@ func runBlob(c Case) (any, error) {
 	return o, nil
 }
 
+// commit closures: keys (height, commit address), empty values
+func runClosure(c Case) (any, error) {
+	r := rand.New(rand.NewSource(c.Seed))
+	ns := tree.NewTestNodeStore()
+	type ck struct {
+		h uint64
+		a hash.Hash
+	}
+	seen := map[ck]bool{}
+	var content []ck
+	for len(content) < c.N {
+		k := ck{uint64(r.Intn(c.KSpace + 1)), hash.Of([]byte(fmt.Sprint("c", r.Intn(1<<30))))}
+		if !seen[k] {
+			seen[k] = true
+			content = append(content, k)
+		}
+	}
+	var o Obs
+	for ri, name := range c.Routes {
+		cc, err := prolly.NewEmptyCommitClosure(ns)
+		if err != nil {
+			return nil, err
+		}
+		order := append([]ck{}, content...)
+		var extras []ck
+		batch := len(order) + 1
+		switch name {
+		case "bulk":
+		case "incr":
+			r.Shuffle(len(order), func(i, j int) { order[i], order[j] = order[j], order[i] })
+			batch = 1 + r.Intn(1+len(order)/3)
+		case "asc1": // in key order, small batches
+			sort.Slice(order, func(i, j int) bool {
+				if order[i].h != order[j].h {
+					return order[i].h < order[j].h
+				}
+				return bytes.Compare(order[i].a[:], order[j].a[:]) < 0
+			})
+			batch = 1 + r.Intn(25)
+		case "insdel": // NOTE: CommitClosureEditor.Delete is a no-op on the real code (leaf values read back as nil,
+			// so ApplyMutations takes "don't delete what isn't there"); the route is kept for the day it works
+			for i := 0; i < 1+len(order)/3; i++ {
+				k := ck{uint64(r.Intn(c.KSpace + 1)), hash.Of([]byte(fmt.Sprint("x", r.Intn(1<<30))))}
+				if !seen[k] {
+					seen[k] = true
+					defer func(k ck) { delete(seen, k) }(k)
+					extras = append(extras, k)
+				}
+			}
+			order = append(order, extras...)
+			r.Shuffle(len(order), func(i, j int) { order[i], order[j] = order[j], order[i] })
+			batch = 1 + r.Intn(1+len(order)/2)
+		default:
+			return nil, fmt.Errorf("unknown route %q", name)
+		}
+		for i := 0; i < len(order); {
+			ed := cc.Editor()
+			for j := 0; j < batch && i < len(order); j, i = j+1, i+1 {
+				if err := ed.Add(ctx, prolly.NewCommitClosureKey(ns.Pool(), order[i].h, order[i].a)); err != nil {
+					return nil, err
+				}
+			}
+			if cc, err = ed.Flush(ctx); err != nil {
+				return nil, err
+			}
+		}
+		if len(extras) > 0 {
+			ed := cc.Editor()
+			for _, k := range extras {
+				if err := ed.Delete(ctx, prolly.NewCommitClosureKey(ns.Pool(), k.h, k.a)); err != nil {
+					return nil, err
+				}
+			}
+			if cc, err = ed.Flush(ctx); err != nil {
+				return nil, err
+			}
+		}
+		ro, lv := routeObs(name, ns, cc.Node())
+		if ro.Count != len(content) {
+			return nil, fmt.Errorf("closure route %s: %d entries, want %d", name, ro.Count, len(content))
+		}
+		o.Routes = append(o.Routes, ro)
+		if ri == 0 {
+			o.N, o.Dec = decisionsWith(lv, make([]byte, 1))
+		}
+	}
+	return o, nil
+}
+
+// JSON documents (json_chunker.go): the same document serialised in one go, and
+// reached from variants of it through IndexedJsonDocument.Set / Insert / Remove.
+// Only object members with scalar / string values are touched. Observed: root
+// hash and the number of nodes per level (the leaf splitter of JSON documents is
+// not the node splitter, so no shape is predicted for this kind).
+func runJSON(c Case) (any, error) {
+	r := rand.New(rand.NewSource(c.Seed))
+	ns := tree.NewTestNodeStore()
+	target := map[string]interface{}{}
+	var keys []string
+	for i := 0; i < c.N; i++ {
+		k := fmt.Sprintf("k%04d", i)
+		keys = append(keys, k)
+		if r.Intn(3) == 0 {
+			target[k] = float64(r.Intn(100000))
+		} else {
+			b := make([]byte, c.VMin+r.Intn(c.VMax-c.VMin+1))
+			for j := range b {
+				b[j] = byte('a' + r.Intn(26))
+			}
+			target[k] = string(b)
+		}
+	}
+	sctx := sql.NewEmptyContext()
+	ser := func(m map[string]interface{}) (*tree.Node, error) {
+		return tree.SerializeJsonToAddr(ctx, ns, gmstypes.JSONDocument{Val: m})
+	}
+	var o Obs
+	for _, name := range c.Routes {
+		var root *tree.Node
+		var err error
+		switch name {
+		case "bulk":
+			root, err = ser(target)
+		case "set", "insert", "remove":
+			variant := map[string]interface{}{}
+			for k, v := range target {
+				variant[k] = v
+			}
+			type ed struct {
+				k string
+			}
+			var eds []string
+			for i := 0; i < 1+r.Intn(4) && len(keys) > 0; i++ {
+				k := keys[r.Intn(len(keys))]
+				switch name {
+				case "set":
+					variant[k] = "other" + fmt.Sprint(r.Intn(1000))
+				case "insert":
+					delete(variant, k)
+				case "remove":
+					k = k + "x"
+					variant[k] = "extra"
+				}
+				eds = append(eds, k)
+			}
+			root, err = ser(variant)
+			if err != nil {
+				return nil, err
+			}
+			var doc gmstypes.MutableJSON = tree.NewIndexedJsonDocument(root, ns)
+			for _, k := range eds {
+				switch name {
+				case "set":
+					doc, _, err = doc.Set(sctx, "$."+k, gmstypes.JSONDocument{Val: target[k]})
+				case "insert":
+					doc, _, err = doc.Insert(sctx, "$."+k, gmstypes.JSONDocument{Val: target[k]})
+				case "remove":
+					doc, _, err = doc.Remove(sctx, "$."+k)
+				}
+				if err != nil {
+					return nil, err
+				}
+			}
+			w, ok := doc.(sql.JSONWrapper)
+			if !ok {
+				return nil, fmt.Errorf("json route %s: result is not a JSONWrapper", name)
+			}
+			root, err = tree.SerializeJsonToAddr(ctx, ns, w)
+		default:
+			return nil, fmt.Errorf("unknown route %q", name)
+		}
+		if err != nil {
+			return nil, err
+		}
+		ro := Route{Name: name, Root: hashInts(root.HashOf()), Levels: [][]int{}}
+		for _, nodes := range walkJSON(ns, root) {
+			ro.Levels = append(ro.Levels, []int{len(nodes)})
+		}
+		o.Routes = append(o.Routes, ro)
+	}
+	o.N, o.Dec = []int{0}, [][]int{}
+	return o, nil
+}
+
+// like walk, but level-0 nodes of a JSON document are blobs (their single value is not an address)
+func walkJSON(ns tree.NodeStore, root *tree.Node) [][]*tree.Node {
+	cur := []*tree.Node{root}
+	all := [][]*tree.Node{cur}
+	for len(cur) > 0 && cur[0].Level() > 0 {
+		var next []*tree.Node
+		for _, nd := range cur {
+			for i := 0; i < nd.Count(); i++ {
+				ch, err := ns.Read(ctx, hash.New(nd.GetValue(i)))
+				if err != nil {
+					panic(err)
+				}
+				next = append(next, ch)
+			}
+		}
+		all = append(all, next)
+		cur = next
+	}
+	for i, j := 0, len(all)-1; i < j; i, j = i+1, j-1 {
+		all[i], all[j] = all[j], all[i]
+	}
+	return all
+}
+
 func Run(raw json.RawMessage) (any, error) {
 	var c Case
 	if err := json.Unmarshal(raw, &c); err != nil {
@@ -654,6 +872,10 @@ func Run(raw json.RawMessage) (any, error) {
 		return runAddr(c)
 	case "blob":
 		return runBlob(c)
+	case "closure":
+		return runClosure(c)
+	case "json":
+		return runJSON(c)
 	}
 	return nil, fmt.Errorf("unknown kind %q", c.Kind)
 }
